@@ -316,7 +316,7 @@ def r5(ctx, r):
             return A("shutting")
         return None
     # `!(oldMode == Sync && mode == Async)` is split over two blocks by the CFG: model the conjunction through its leaves
-    vocab2 = Vocab(["oldsync", "newasync", "nobuf", "dataempty"])
+    vocab2 = Vocab(["oldsync", "newasync", "nobuf", "dataempty", "closed"])
 
     def leaf2(n):
         k = n.get("k")
@@ -331,16 +331,29 @@ def r5(ctx, r):
                 return A("nobuf") if cp[0] == "==" else Not(A("nobuf"))
         if k == "mcall" and last(n.get("callee", "")) == "empty" and field_of(n.get("obj")) == SRB + "::data":
             return A("dataempty")
+        if k == "member" and n["n"] == SRB + "::closed":
+            return A("closed")
         return None
 
     def effects(e):
         if e.kind == "dtor" and e.raw.get("t", "").startswith(("std::lock_guard", "std::unique_lock")):
-            return [("havoc_all", ["nobuf", "dataempty"])]
+            return [("havoc_all", ["nobuf", "dataempty", "closed"])]
         if e.kind != "stmt":
             return None
         n = e.node
         if n.get("k") == "mcall" and n.get("callee") == "std::unique_lock::unlock":
-            return [("havoc_all", ["nobuf", "dataempty"])]
+            return [("havoc_all", ["nobuf", "dataempty", "closed"])]
+        # the local copy of the old mode: `oldMode = ReadMode::Sync` / `= it->second` / its declaration
+        if n.get("k") in ("bin", "opcall") and n.get("op") == "=":
+            lhs = strip_casts(n["lhs"] if n.get("k") == "bin" else n["args"][0])
+            rhs = strip_casts(n["rhs"] if n.get("k") == "bin" else n["args"][1])
+            if lhs.get("k") == "var" and lhs.get("n") == "oldMode":
+                return [("set", "oldsync", rhs["n"].endswith("ReadMode::Sync"))] if rhs.get("k") == "enum" else [("havoc", "oldsync")]
+        if n.get("k") == "decl":
+            for v in n["vars"]:
+                if v["n"] == "oldMode":
+                    i = strip_casts(v.get("init") or {})
+                    return [("set", "oldsync", i["n"].endswith("ReadMode::Sync"))] if i.get("k") == "enum" else [("havoc", "oldsync")]
         if n.get("k") == "mcall" and field_of(n.get("obj")) == SRB + "::data" and last(n["callee"]) in access.MUTATORS:
             return [("havoc", "dataempty")]
         if n.get("k") == "opcall" and n.get("op") == "=" and field_of(n["args"][0]) == SRB + "::data":
@@ -359,11 +372,21 @@ def r5(ctx, r):
         raise AnalysisBroken("setReadMode no longer writes readModes")
     for e in writes:
         r.instance()
-        ok = la.holds(f, e, SYNC) and pa.entails(e, Or(Not(And(A("oldsync"), A("newasync"))), A("nobuf"), A("dataempty")))
+        n = e.node
+        rhs = strip_casts(n["rhs"] if n.get("k") == "bin" else n["args"][1])
+        nothing_pending = Or(A("nobuf"), A("dataempty"), A("closed"))
+        if rhs.get("k") == "enum":
+            # a constant: only `= Async` hands the session to the data callback
+            need = nothing_pending if rhs["n"].endswith("ReadMode::Async") else T
+        elif rhs.get("k") == "var" and rhs.get("n") == "mode":
+            need = Or(Not(A("newasync")), nothing_pending)
+        else:
+            raise AnalysisBroken("setReadMode: readModes written with `%s`" % show(rhs)[:40])
+        ok = la.holds(f, e, SYNC) and pa.entails(e, need)
         r.expect(ok, f, e, "mode switched with data buffered",
-                 "the read mode is switched on a Sync→Async transition without the buffer having been seen empty in the same critical section "
-                 "(known: %s): bytes buffered for synchronous reading are stranded or delivered out of order" % (",".join(pa.describe(e)) or "nothing"),
-                 okdesc="mode write at line %s only for non-flush transition / no buffer / empty buffer, under syncMutex" % e.line)
+                 "the session is switched to Async (line %d) without the receive buffer having been seen absent, empty or closed in the same critical section (known: %s) — whatever the old mode was: bytes buffered in an "
+                 "earlier Sync phase (Sync → Disabled → Async) are never handed to the data callback and come out of a later receiveSync after bytes that arrived later" % (e.line, ",".join(pa.describe(e)) or "nothing"),
+                 okdesc="mode write at line %s: not to Async, or nothing pending, under syncMutex" % e.line)
     # (b) user callback invoked with no transport lock
     invs = common.fn_invocations(f)
     r.instance(len(invs))
